@@ -185,6 +185,8 @@ def execute(rec, timeout=30):
                 marked = np.array([a for a in arg if a < m.t.shape[1]], dtype=np.int32)
                 if rec.get('marked_as') == 'list':
                     marked = [int(a) for a in marked]          # the documented alternative: a plain list of indices
+                elif rec.get('marked_as') == 'int64':
+                    marked = marked.astype(np.int64)           # what np.nonzero / np.argsort hand over
                 m2, err = guarded(lambda: m.refined(marked), timeout)
         finally:
             logger.removeHandler(cap)
